@@ -349,16 +349,32 @@ def run(P, rep, tier):
             rep.ok(r6, X)
 
 
+_IMMUTABLE_RESULT = {'encode', 'decode', 'format', 'join', 'strip', 'lstrip', 'rstrip', 'lower', 'upper', 'replace', 'compile',
+                     'str', 'bytes', 'int', 'float', 'bool', 'tuple', 'frozenset', 'len', 'lookup', 'getincrementaldecoder'}
+_ITERATOR_RESULT = {'finditer', 'iter', 'get_tokens', 'get_tokens_unprocessed', 'map', 'filter', 'zip', 'reversed', 'enumerate',
+                    'iteritems', 'itervalues', 'iterkeys', 'iter_sections', 'iter_lines', 'scandir', 'walk'}
+
+
 def _may_return_mutable(fn):
+    """What a memoised function hands to all its callers: None when every return is an immutable value."""
+    if any(isinstance(n, (ast.Yield, ast.YieldFrom)) for n in ast.walk(fn)):
+        return 'a generator, which is exhausted by its first consumer'
     for n in ast.walk(fn):
         if isinstance(n, ast.Return) and n.value is not None:
             v = n.value
             if isinstance(v, (ast.Dict, ast.List, ast.Set, ast.DictComp, ast.ListComp, ast.SetComp)):
                 return 'a new container'
+            if isinstance(v, ast.GeneratorExp):
+                return 'a generator, which is exhausted by its first consumer'
             if isinstance(v, ast.Call):
                 t = norm(v.func)
+                last = t.split('.')[-1]
                 if t in ('json.loads', 'dict', 'list', 'set', 'deepcopy', 'copy.deepcopy') or t.endswith('.copy'):
                     return 'the result of %s(...)' % t
+                if last in _ITERATOR_RESULT:
+                    return 'the iterator returned by %s(...), which is exhausted by its first consumer' % t
+                if last not in _IMMUTABLE_RESULT:
+                    raise AnalysisError('memoised function %s returns the result of %s(...), whose mutability is not known' % (fn.name, t))
             if isinstance(v, (ast.Name, ast.Attribute, ast.Subscript)):
                 return 'a value of unknown mutability (%s)' % norm(v)
     return None
